@@ -356,3 +356,22 @@ func escapeString(token string) string {
 	}
 	return token
 }
+
+// escapedTokenLen returns the length of the first token in text, as printed by escapeString.
+func escapedTokenLen(text string) int {
+	if !strings.HasPrefix(text, "\"") {
+		if end := strings.IndexByte(text, ' '); end >= 0 {
+			return end
+		}
+		return len(text)
+	}
+	for i := 1; i < len(text); i++ {
+		switch text[i] {
+		case '\\':
+			i++
+		case '"':
+			return i + 1
+		}
+	}
+	return len(text)
+}
